@@ -359,6 +359,10 @@ class MultiTypeMap(dict):
 
         funcs.reverse()
 
+        # All entries are published at once at the end, so that the entry
+        # for obj_t_tup never becomes visible without its continuations.
+        new_entries = {}
+        new_errors = {}
         parents = []
         for group, (func, codes) in zip(results, funcs):
             tups = (
@@ -368,16 +372,19 @@ class MultiTypeMap(dict):
             )
             if func is None:
                 for tup in tups:
-                    self.errors[tup] = self.key_error(obj_t_tup, group)
-                    _verif.point("resolve.remember_error", key=tup)
+                    new_errors[tup] = self.key_error(obj_t_tup, group)
                 break
             else:
                 for tup in tups:
-                    self[tup] = func
-                    _verif.point("resolve.write", key=tup)
+                    new_entries[tup] = func
             if not codes:
                 break
             parents = codes
+
+        self.errors.update(new_errors)
+        _verif.point("resolve.remember_error", keys=list(new_errors))
+        self.update(new_entries)
+        _verif.point("resolve.write", keys=list(new_entries))
 
         return True
 
